@@ -10,6 +10,12 @@ from rtc import seqcheck as SC
 from spec import seqsem
 
 UNITS = []
+
+
+def _stop(failures):
+    from rtc.known import stop
+    return stop("C01", failures, 5)
+
 USES_THEORY = False
 
 
@@ -78,14 +84,14 @@ def bounded(tier, seed):
                     break
                 if len(samples) < 3 and want is not None and evals % 37 == 0:
                     samples.append(SC.describe(pr, st, a, ps) | {"problem": pr.name})
-            if len(failures) >= 5:
+            if _stop(failures):
                 break
-        if len(failures) >= 5:
+        if _stop(failures):
             break
         # long histories on the simulator's own state chain (no fresh states): 2 random walks of 26 applicable steps
         import random as _r
         for w in range(2):
-            if len(failures) >= 5:
+            if _stop(failures):
                 break
             rng = _r.Random(s * 31 + w)
             ref, cur = ref0, init
